@@ -560,6 +560,12 @@ pub fn finalize_with_monitors(w: &mut World, actor: &str, psbt: &mut Psbt, v: u6
                     }
                 }
                 w.stats.probe("persist_between_inputs");
+                // crash point between two inputs: what has been finalised so far is what is persisted
+                if actor == "coord" && w.dec.fault(crate::scenario::Fault::CoordCrash, &format!("between-inputs:{}:{}", w.stats.attempts, i), 6, 100, 1) != 0 {
+                    w.stats.probe("crash_between_inputs");
+                    w.coord.crash_requested = true;
+                    break;
+                }
             }
         }
     }
@@ -591,7 +597,7 @@ pub fn finalize_with_monitors(w: &mut World, actor: &str, psbt: &mut Psbt, v: u6
                 if inp.witness_utxo != before.inputs[i].witness_utxo || inp.non_witness_utxo != before.inputs[i].non_witness_utxo {
                     raise(w, "C14", "I3-utxo", format!("{} dropped or changed a UTXO field of input {}", how, i), actor);
                 }
-            } else if matches!(v % 6, 0 | 1 | 3) {
+            } else if matches!(v % 6, 0 | 1 | 3) && !w.coord.crash_requested {
                 // whole-PSBT variants: an input that is neither reported failed nor final
                 raise(w, "C14", "I3", format!("{} neither finalised nor reported input {}", how, i), actor);
             }
@@ -703,6 +709,42 @@ pub fn update_with_monitors(w: &mut World, psbt: &mut Psbt, i: usize, plan: Opti
     }
     if w.mon.on("C14") {
         crate::mon_psbt::check_updater(w, psbt, i, &before, plan.is_some());
+    }
+}
+
+/// Output updater: `update_output_with_descriptor` on output `o` with the descriptor of input `di`.
+pub fn update_output_with_monitors(w: &mut World, psbt: &mut Psbt, o: usize, di: usize) {
+    let desc = w.env.inputs[di].desc.clone();
+    let r = guard(w, "update_output_with_descriptor", "coord", |_| psbt.update_output_with_descriptor(o, &desc));
+    match r {
+        Some(Ok(())) => {
+            if w.mon.on("C14") {
+                crate::mon_psbt::check_output_updater(w, psbt, o, di);
+            }
+        }
+        Some(Err(e)) => {
+            if w.mon.on("C14") && !w.mon.corruption {
+                raise(w, "C14", "I7-output", format!("update_output_with_descriptor refused a matching descriptor: {:?} desc={}", e, w.env.inputs[di].spec.text), "coord");
+            }
+        }
+        None => {}
+    }
+    // a descriptor that does not match the output must be refused and leave it unchanged
+    if w.mon.on("C14") && w.env.inputs.len() > 1 {
+        let other = (di + 1) % w.env.inputs.len();
+        if w.env.inputs[other].spk != w.env.inputs[di].spk {
+            let od = w.env.inputs[other].desc.clone();
+            let mut copy = psbt.clone();
+            match guard(w, "update_output_with_descriptor(mismatch)", "coord", |_| copy.update_output_with_descriptor(o, &od)) {
+                Some(Ok(())) => raise(w, "C14", "I7-output", "output updater accepted a descriptor that does not match the output".to_string(), "coord"),
+                Some(Err(_)) => {
+                    if copy.outputs[o] != psbt.outputs[o] {
+                        raise(w, "C14", "I7-output", "output updater refused a mismatching descriptor but changed the output".to_string(), "coord");
+                    }
+                }
+                None => {}
+            }
+        }
     }
 }
 
